@@ -172,6 +172,104 @@ def noise(rng, mtu):
     return bytes(rng.randrange(256) for _ in range(n))
 
 
+
+# --------------------------------------------------------------------------- time and churn families
+GAPS = [0, 1, 9, 10, 11, 99, 100, 101, 999, 1000, 1001, 2250, 2255, 2559, 2560, 4810, 9999, 10000, 29999, 30000, 30001,
+        59999, 60000, 60001, 120001, 600000, 3600000, 86400000]
+
+
+def dilate(sc, seed, p=0.5, suffix="-slow"):
+    """The same history with virtual time passing between the frames. The responder's frame path has no timers:
+    what it does with a frame depends on the frames before it, never on how long ago they arrived, so every
+    expectation stays what it was."""
+    rng = random.Random(seed)
+    out = []
+    for ln in sc.lines:
+        out.append(ln)
+        if ln.startswith(("RX ", "RXALL ", "DRAIN ", "LDRAIN ", "PIPE ")) and rng.random() < p:
+            out.append("ADV %d" % rng.choice(GAPS + [rng.randrange(0, 100000)]))
+    return Scenario(sc.name + suffix, out, dict(sc.meta))
+
+
+def with_slow(scs, seed, every=3, p=0.5):
+    """appends a slowed-down twin of every `every'-th scenario"""
+    rng = random.Random(seed ^ 0x510)
+    return scs + [dilate(sc, rng.randrange(1 << 30), p) for i, sc in enumerate(scs) if i % every == 0]
+
+
+def sc_churn(name, seed, mtu, rounds=5, all_entries=False, strangers=True):
+    """Record churn: more observations than one QueryResp carries, with frames seen earlier (the newest, the
+    oldest, any) arriving again before, between and after the partial drains, while strangers talk and time
+    passes. Exercises the lifetime of every record the responder keeps."""
+    rng = random.Random(seed)
+    s = new_script(mtu=mtu)
+    cap = (mtu - 34) // 20
+    s.rx(1, discover(0, M1, gen=5, seq=1), all_entries=all_entries)
+    seen = []
+    seq = 10
+    n = 0
+    for r in range(rounds):
+        k = rng.choice([cap + 1, cap + 2, cap + cap // 2, 2 * cap + 1, cap, 3])
+        for i in range(k):
+            rs = bytes([0x02, 0x71, (seed >> 8) & 0xFF, seed & 0xFF, n >> 8, n & 0xFF])
+            n += 1
+            f = probe(rs, OWN, rs, OWN, train=rng.random() < 0.4)
+            seen.append(f)
+            s.rx(1, f, all_entries=all_entries)
+            x = rng.random()
+            if x < 0.15:
+                s.rx(1, seen[-1], all_entries=all_entries)
+            elif x < 0.25:
+                s.rx(1, rng.choice(seen), all_entries=all_entries)
+            elif x < 0.28 and strangers:
+                s.rx(1, rng.choice([discover(0, X, gen=9, seq=3), query(X, OWN, seq=77), discover(1, X, gen=4, seq=9),
+                                    emit(X, OWN, [(1, 0, OWN, PEER)], seq=78)]), all_entries=all_entries)
+            elif x < 0.31:
+                s.adv(rng.choice(GAPS))
+        # again just before the drain: the newest, the oldest of this round, any
+        for f in (seen[-1], seen[-k], rng.choice(seen)):
+            if rng.random() < 0.7:
+                s.rx(1, f, all_entries=all_entries)
+        for q in range(rng.choice([1, 1, 2, 4])):
+            seq = rng.choice([seq + 1, seq + 1, rng.randrange(1, 0xFFF0), max(1, seq - rng.randrange(1, 500))])
+            s.rx(1, query(M1, OWN, seq=seq), all_entries=all_entries)
+            for f in (seen[-1], seen[-k], rng.choice(seen), rng.choice(seen[-k:])):
+                if rng.random() < 0.5:
+                    s.rx(1, f, all_entries=all_entries)
+            if rng.random() < 0.3:
+                rs = bytes([0x02, 0x72, (seed >> 8) & 0xFF, seed & 0xFF, n >> 8, n & 0xFF])
+                n += 1
+                f = probe(rs, OWN, rs, OWN)
+                seen.append(f)
+                s.rx(1, f, all_entries=all_entries)
+        x = rng.random()
+        if x < 0.15:
+            s.rx(1, reset(M1), all_entries=all_entries)
+            s.rx(1, seen[-1], all_entries=all_entries)
+            s.rx(1, discover(0, M1, gen=5, seq=1), all_entries=all_entries)
+        elif x < 0.3:
+            s.drain(1, query(M1, OWN, seq=200 + r), 12)
+    s.drain(1, query(M1, OWN, seq=300), 12)
+    s.rx(1, query(M1, OWN, seq=301), all_entries=all_entries)
+    return Scenario(name, s.lines, {"mtu": mtu, "seed": seed})
+
+
+def sc_header_sweep(name, tos_list, ops, context, ver=1, dst_own=True):
+    """one frame per (service byte, opcode) with a plausible body, from nobody / the bound mapper / a stranger;
+    a Reset of both services in between keeps every frame's context the same"""
+    s = new_script()
+    for tos in tos_list:
+        for op in ops:
+            s.rx(1, reset(M2))
+            if context != "none":
+                s.rx(1, discover(0, M1, gen=7, seq=1))
+            src = M1 if context == "mapper" else X
+            body = bytes([0x00, 0x07, 0x00, 0x01]) + OWN + PEER + bytes(8)
+            f = header(tos, op, OWN if dst_own else BCAST, src, OWN if dst_own else BCAST, src, 5, ver=ver) + body
+            s.rx(1, f)
+    return Scenario(name, s.lines)
+
+
 # --------------------------------------------------------------------------- C02 / C03 / generic
 def sc_history(name, seed, mtu=1500, wifi=0, n=40, wild=0.15, twins=False, mut=0.0, noi=0.0, fills=(0, 0, 0xFF, 0x5A, 1)):
     rng = random.Random(seed)
@@ -225,7 +323,7 @@ def campaign_c03(seed, tier):
                 s.rx(1, hello(rng.choice([0, 1]), PEER, rng.randrange(65536), src, eth))
             s.rx(1, reset(src, tos=rng.choice([0, 1]) if rng.random() < 0.5 else tos))
         scs.append(Scenario("c03-tuples-%d" % i, s.lines))
-    return scs
+    return with_slow(scs, seed, every=4)
 
 
 def campaign_c02(seed, tier):
@@ -239,7 +337,15 @@ def campaign_c02(seed, tier):
                               wifi=(i // 3) % 2, n=36, wild=0.2, twins=True,
                               mut=[0.0, 0.5, 0.2][kind], noi=[0.0, 0.1, 0.6][kind],
                               fills=(0, 0xFF, 0x5A)))
-    return scs
+    # every (service, opcode) header, in every context, to the station and to broadcast
+    allops = list(range(256))
+    for ctx in ("none", "mapper", "stranger"):
+        for dst_own in (True, False):
+            scs.append(sc_header_sweep("c02-hdr-%s-%s" % (ctx, "own" if dst_own else "bcast"), [0, 1], allops, ctx, dst_own=dst_own))
+    scs.append(sc_header_sweep("c02-hdr-otherservices", [2, 3, 4, 0x10, 0x7F, 0x80, 0xFF], allops if tier != "quick" else list(range(0, 32)) + [0x80, 0xFF], "mapper"))
+    for ver in ([0, 2, 3, 0x10, 0x11, 0x81, 0xFF] if tier == "quick" else [v for v in range(256) if v != 1]):
+        scs.append(sc_header_sweep("c02-hdr-ver%d" % ver, [0, 1], [0, 2, 4, 6, 8, 11], "mapper", ver=ver))
+    return with_slow(scs, seed, every=6)
 
 
 # --------------------------------------------------------------------------- C05
@@ -284,7 +390,7 @@ def campaign_c05(seed, tier):
         scs.append(sc_history("c05-hist-%d" % i, rng.randrange(1 << 30), n=60, wild=0.0 if i % 2 else 0.2))
     scs.append(sc_onebyte_mapper("c05-onebyte"))
     scs.append(sc_twobyte("c05-twobyte"))
-    return scs
+    return with_slow(scs, seed, every=6)
 
 
 # --------------------------------------------------------------------------- C04
@@ -352,11 +458,55 @@ def sc_c04(name, seed, n):
     return Scenario(name, s.lines)
 
 
+def sc_preempt(name, seed, ks, kinds=("discover",)):
+    """One receive thread per interface: interface 1's request is suspended at its k-th call into the platform
+    layer while interface 2 (other attributes, other MTU, other mapper) serves a request of its own, and the
+    other way round. Each interface's reaction must be what it would have been alone."""
+    rng = random.Random(seed)
+    s = Script()
+    s.cfg(host=rnd_name(rng), icon=(700, 5), name=(30, 6), hwid="PREEMPT".encode("utf-16le"))
+    macs = [rnd_mac(rng), rnd_mac(rng)]
+    mtus = rng.choice([(1500, 1500), (576, 1500), (1500, 9000), (600, 577)])
+    s.boot(1, macs[0], mtu=mtus[0], wifi=0, fill=0xA5, **rnd_attrs(rng, 0))
+    s.boot(2, macs[1], mtu=mtus[1], wifi=1, fill=0x5A, **rnd_attrs(rng, 1))
+    mp = {1: M1, 2: M2}
+
+    def frame(kind, i):
+        own, m = macs[i - 1], mp[i]
+        if kind == "discover":
+            return discover(rng.choice([0, 1]), m, gen=rng.randrange(1, 65536), seq=rng.randrange(65536), eth_src=m if rng.random() < 0.7 else BR)
+        if kind == "query":
+            return query(m, own, seq=rng.randrange(1, 65536))
+        if kind == "large":
+            return query_large(m, own, rng.choice([0x0E, 0x11, 0x13]), rng.choice([0, 3, 699]), seq=rng.randrange(1, 65536))
+        if kind == "emit":
+            return emit(m, own, [(rng.choice([0, 1]), 0, own, rnd_mac(rng)) for _ in range(rng.randrange(1, 4))], seq=rng.randrange(1, 65536))
+        return probe(X, own, X, own)
+
+    for k in ks:
+        for a, b in ((1, 2), (2, 1)):
+            ka, kb = rng.choice(kinds), rng.choice(kinds + ("discover",))
+            # both interfaces in a known state: released, then (unless the request is the Discover itself) bound with observations
+            for i in (1, 2):
+                s.rx(i, reset(mp[i]))
+                if (ka if i == a else kb) != "discover":
+                    s.rx(i, discover(0, mp[i], gen=9, seq=1))
+                    s.rx(i, probe(X, macs[i - 1], PEER, macs[i - 1]))
+                    s.rx(i, probe(PEER, macs[i - 1], PEER, macs[i - 1], train=True))
+            s.prx(a, b, k, frame(ka, a), frame(kb, b), fill_a=rng.choice([0, 0xFF]), fill_b=rng.choice([0, 0x5A]))
+    return Scenario(name, s.lines)
+
+
 def campaign_c04(seed, tier):
     rng = random.Random(seed)
     per = 100
     n = 32 if tier == "quick" else 1000
-    return [sc_c04("c04-attrs-%d" % i, rng.randrange(1 << 30), per) for i in range(n)]
+    scs = [sc_c04("c04-attrs-%d" % i, rng.randrange(1 << 30), per) for i in range(n)]
+    # the Hello of one interface built while the receive thread of another interface runs in between
+    for i in range(2 if tier == "quick" else 40):
+        scs.append(sc_preempt("c04-preempt-%d" % i, rng.randrange(1 << 30), list(range(1, 23))))
+    scs.append(sc_preempt("c04-preempt-mixed", rng.randrange(1 << 30), list(range(1, 16)), kinds=("discover", "query", "large", "emit", "probe")))
+    return scs
 
 
 # --------------------------------------------------------------------------- C06
@@ -413,7 +563,7 @@ def campaign_c06(seed, tier):
         scs.append(sc_c06("c06-%d-r" % mtu, rng.randrange(1 << 30), mtu, mtu % 2))
     for i in range(8 if tier == "quick" else 200):
         scs.append(sc_history("c06-hist-%d" % i, rng.randrange(1 << 30), n=50, wild=0.1, mtu=rng.choice(MTUS)))
-    return scs
+    return with_slow(scs, seed, every=4)
 
 
 # --------------------------------------------------------------------------- C07
@@ -521,7 +671,9 @@ def campaign_c07(seed, tier):
                 scs.append(sc_c07_redrain("c07-redrain-%d-%d" % (mtu, r), rng.randrange(1 << 16), mtu))
     for i in range(8 if tier == "quick" else 200):
         scs.append(sc_history("c07-hist-%d" % i, rng.randrange(1 << 30), n=60, wild=0.05, mtu=any_mtu(rng)))
-    return scs
+    for i, mtu in enumerate([576, 576, 590, 1500] if tier == "quick" else [576] * 20 + [590] * 10 + [1500] * 10 + [rng.randrange(576, 2000) for _ in range(20)]):
+        scs.append(sc_churn("c07-churn-%d-%d" % (mtu, i), rng.randrange(1 << 30), mtu))
+    return with_slow(scs, seed, every=4)
 
 
 # --------------------------------------------------------------------------- C08
@@ -534,29 +686,48 @@ def sc_c08(name, seed, mtu, isize, nsize, hwid, tier):
     m = M1
     s.rx(1, discover(0, m, gen=1, seq=1))
     seq = 10
+
+    def nseq():
+        # the mapper's sequence numbers are its own business: they may jump, go backwards (a mapper that restarted
+        # its counter) or sit at a representation boundary; only 0 means "no answer wanted"
+        nonlocal seq
+        x = rng.random()
+        if x < 0.55:
+            seq = 1 if seq >= 0xFFFF else seq + 1
+        elif x < 0.70:
+            seq = rng.randrange(1, 0x10000)
+        elif x < 0.88:
+            seq = (seq - rng.choice([1, 2, 0x100, 0x7FFF, 0x8000, rng.randrange(1, 40000)])) % 0x10000 or 1
+        else:
+            seq = rng.choice([1, 0xFF, 0x100, 0x7FFF, 0x8000, 0x8001, 0xFF00, 0xFFFE, 0xFFFF])
+        return seq
+
+    def other():
+        # other sequenced commands of the mapper in between
+        if rng.random() < 0.2:
+            s.rx(1, rng.choice([query(m, OWN, seq=nseq()), emit(m, OWN, [(1, 0, OWN, PEER)], seq=nseq()),
+                                discover(0, m, gen=1, seq=rng.choice([0, nseq()]))]))
     for typ, size in ((0x0E, isize or 0), (0x11, nsize or 0), (0x13, len(hwid))):
-        s.drain(1, query_large(m, OWN, typ, 0, seq=seq), 40, large=True)
-        seq += 50
+        s.drain(1, query_large(m, OWN, typ, 0, seq=nseq()), 40, large=True)
         offs = [0, 1, cap - 1, cap, cap + 1, size - 1 if size > 0 else 0, size, size + 1, 65535,
                 max(0, size - cap), max(0, size - cap - 1), max(0, size - cap + 1)] + [rng.randrange(65536) for _ in range(3)]
         for off in offs:
             if 0 <= off <= 65535:
-                seq += 1
-                s.rx(1, query_large(m, OWN, typ, off, seq=seq, tos=rng.choice([0, 0, 1])))
+                other()
+                s.rx(1, query_large(m, OWN, typ, off, seq=nseq(), tos=rng.choice([0, 0, 1])))
     for typ in (0x00, 0x0F, 0x12, 0x14, 0x1A, 0xFF, rng.randrange(256)):
-        seq += 1
-        s.rx(1, query_large(m, OWN, typ, rng.choice([0, 5]), seq=seq))
+        s.rx(1, query_large(m, OWN, typ, rng.choice([0, 5]), seq=nseq()))
     s.rx(1, query_large(m, OWN, 0x0E, 0, seq=0))
     s.rx(1, query_large(m, OWN, 0x11, 0, seq=0, tos=1))
     # a second station walks the properties with its own sequence numbers while M1 is the active mapper:
     # whatever is answered must answer that request
     s.drain(1, query_large(X, OWN, 0x0E, 0, seq=0x4D01), 40, large=True)
     s.rx(1, query_large(X, OWN, 0x11, 0, seq=0x4E02, eth_src=BR))
-    s.rx(1, query_large(m, OWN, 0x11, 1, seq=seq + 9))
+    s.rx(1, query_large(m, OWN, 0x11, 1, seq=nseq()))
     # the cached icon must not survive a Reset with a stale size: re-query after Reset
-    s.rx(1, reset(m))
-    s.rx(1, query_large(m, OWN, 0x0E, 0, seq=seq + 1))
-    s.rx(1, query_large(m, OWN, 0x0E, 7, seq=seq + 2, eth_src=BR))
+    s.rx(1, reset(m, tos=rng.choice([0, 1])))
+    s.rx(1, query_large(m, OWN, 0x0E, 0, seq=nseq()))
+    s.rx(1, query_large(m, OWN, 0x0E, 7, seq=nseq(), eth_src=BR))
     return Scenario(name, s.lines)
 
 
@@ -581,7 +752,7 @@ def campaign_c08(seed, tier):
             hwid = rng.choice([hw, b"", hw[:2], hw[:62], (hw + hw)[:64]])
             scs.append(sc_c08("c08-%d-%d" % (mtu, i), rng.randrange(1 << 30), mtu, sz, nsz, hwid, tier))
         scs.append(sc_c08("c08-%d-absent" % mtu, rng.randrange(1 << 30), mtu, None, None, b"", tier))
-    return scs
+    return with_slow(scs, seed, every=6)
 
 
 # --------------------------------------------------------------------------- C09
@@ -645,7 +816,7 @@ def campaign_c09(seed, tier):
     scs = []
     for i in range(32 if tier == "quick" else 3000):
         scs.append(sc_c09("c09-%d" % i, rng.randrange(1 << 30), MTUS[i % 3], [0.0, 0.2, 0.5][i % 3], rng.choice([0, 1, 5, 30, 80]), wifi=i % 2))
-    return scs
+    return with_slow(scs, seed, every=4)
 
 
 # --------------------------------------------------------------------------- C19
@@ -726,11 +897,13 @@ def campaign_c19(seed, tier):
         scs.append(sc_c19_flood("c19-flood-%d" % mtu, rng.randrange(1 << 30), mtu, n))
     for i in range(13 if tier == "quick" else 300):
         scs.append(sc_c19_idem("c19-idem-%d" % i, rng.randrange(1 << 30), MTUS[i % 3]))
+    for i in range(3 if tier == "quick" else 40):
+        scs.append(sc_churn("c19-churn-%d" % i, rng.randrange(1 << 30), [576, 590, 1500][i % 3], rounds=4))
     return scs
 
 
 # --------------------------------------------------------------------------- C10
-def sc_c10(name, seed, mtu):
+def sc_c10(name, seed, mtu, heavy=False):
     """two instances of this responder (interfaces 1 = A, 2 = B) on one segment; the mapper orders
     A to emit towards B; A's frames are delivered verbatim to B; B is queried"""
     rng = random.Random(seed)
@@ -748,12 +921,16 @@ def sc_c10(name, seed, mtu):
     s.rx([1], discover(0, m, gen=gen, seq=1, eth_src=via))
     s.rx([2], discover(0, m, gen=gen, seq=1))
     seq = 10
+    qcap, ecap = (mtu - 34) // 20, (mtu - 34) // 14
     for rnd in range(rng.randrange(2, 5)):
         n = rng.randrange(1, 6)
+        if heavy and rnd < 2:
+            # more than one QueryResp carries: a single Emit can order more frames than B can report at once
+            n = rng.choice([qcap, qcap + 1, ecap, rng.randrange(qcap + 1, ecap + 1)]) if rnd == 0 else rng.randrange(1, qcap)
         descs = []
         for i in range(n):
-            src = rng.choice([a_mac, a_mac, rnd_mac(rng)])
-            dst = rng.choice([b_mac, b_mac, b_mac, X])
+            src = rng.choice([a_mac, a_mac, rnd_mac(rng)]) if n < 6 else bytes([0x02, 0x55, rnd, seed & 0xFF, i >> 8, i & 0xFF])
+            dst = rng.choice([b_mac, b_mac, b_mac, X]) if n < 6 else b_mac
             descs.append((rng.choice([0, 1]), rng.choice([0, 1, 7, 255]), src, dst))
         seq += 1
         # unrelated traffic interleaved
@@ -770,14 +947,18 @@ def sc_c10(name, seed, mtu):
         if rng.random() < 0.4:
             s.rx([2], query_large(m, b_mac, 0x11, 0, seq=seq + 100))
         if rng.random() < 0.6 or rnd == 0:
-            s.drain(2, query(m, b_mac, seq=seq + 200), 5)
-    s.drain(2, query(m, b_mac, seq=999), 5)
+            if heavy and rng.random() < 0.5:
+                s.rx([2], query(m, b_mac, seq=seq + 150))      # one partial report, more traffic, then the rest
+            else:
+                s.drain(2, query(m, b_mac, seq=seq + 200), 8)
+    s.drain(2, query(m, b_mac, seq=999), 8)
     return Scenario(name, s.lines)
 
 
 def campaign_c10(seed, tier):
     rng = random.Random(seed)
-    return [sc_c10("c10-%d" % i, rng.randrange(1 << 30), MTUS[i % 3]) for i in range(48 if tier == "quick" else 6000)]
+    return [sc_c10("c10-%d" % i, rng.randrange(1 << 30), MTUS[i % 3] if i % 4 != 3 else rng.choice([576, 590, 1500]), heavy=(i % 4 == 3))
+            for i in range(48 if tier == "quick" else 6000)]
 
 
 # --------------------------------------------------------------------------- C18
@@ -997,6 +1178,8 @@ def campaign_c01(seed, tier):
         for j in range(0, len(pairs), per):
             scs.append(sc_c01("c01-%d-%d" % (mtu, j // per), rng.randrange(1 << 30), mtu, i % 2, pairs[j:j + per], nrand if j < 16 * per else 0))
             i += 1
+    for i, mtu in enumerate([576, 576, 590, 1500] if tier == "quick" else [576] * 30 + [590] * 10 + [1500] * 10 + [rng.randrange(576, 2000) for _ in range(30)]):
+        scs.append(sc_churn("c01-churn-%d-%d" % (mtu, i), rng.randrange(1 << 30), mtu, all_entries=True))
     return scs
 
 
